@@ -36,10 +36,11 @@ func zzTag(ev state.Event) int64 {
 
 type zzCfg struct{ capacity, max, gap int }
 
-var zzConfigs = []zzCfg{{1, 1, 0}, {2, 2, 0}, {2, 4, 1}, {3, 3, 1}, {4, 4, 2}, {3, 6, 1}, {1, 4, 0}, {4, 8, 1}, {5, 5, 2}, {8, 8, 1}}
+// (capacity, maximum capacity, gap); {2,3,0} and {3,5,1}: the maximum is not capacity*2^k, growth must be clamped
+var zzConfigs = []zzCfg{{1, 1, 0}, {2, 2, 0}, {2, 4, 1}, {3, 3, 1}, {2, 3, 0}, {4, 4, 2}, {3, 6, 1}, {1, 4, 0}, {3, 5, 1}, {4, 8, 1}, {5, 5, 2}, {8, 8, 1}}
 
 func zzPickCfg() zzCfg {
-	n := 4
+	n := 5
 	if verif.Tier() == "thorough" {
 		n = len(zzConfigs)
 	}
@@ -52,10 +53,10 @@ func zzPickCfg() zzCfg {
 // delay bound.
 func zzPickCfgWatch(nMore int) (zzCfg, int) {
 	if verif.Tier() != "thorough" {
-		return zzConfigs[verif.Choose("config", 4)], 1
+		return zzConfigs[verif.Choose("config", 5)], 1
 	}
 	if verif.Choose("moreData", 2) == 0 {
-		return zzConfigs[verif.Choose("config", 4)], 1 // delay bound of the registry (1)
+		return zzConfigs[verif.Choose("config", 5)], 1 // delay bound of the registry (1)
 	}
 	verif.SetPreemptions(0)
 	cfg := zzConfigs[verif.Choose("config", nMore)]
@@ -217,7 +218,7 @@ func zzPublish(c *ResourceCollection, id resource.ID, tag int64) {
 // while more events are published; it is errored only if it lags by more than
 // the capacity, and it never stops silently.
 func ZZ_ResumeIsSuffix() {
-	cfg, rounds := zzPickCfgWatch(7)
+	cfg, rounds := zzPickCfgWatch(9)
 	W := zzSymW(cfg)
 	c := zzCollectionAt(cfg, W, func(int64) resource.ID { return "x" })
 	P := verif.Int64("P")
